@@ -5,3 +5,4 @@ package core
 
 func verifHoldTicker(_ *eventloop) bool { return false }
 func verifRefreshIdle()                 {}
+func verifTopoPoint(_ string)           {}
